@@ -80,7 +80,15 @@ fn one_case(ctx: &Ctx, case: u64, l: &mut Local) {
     let class = cfg.profile.name();
     let n_sd = s.strat.sd.len();
     let extra = r.usize(6);
-    let salts: Vec<String> = (0..n_sd + extra)
+    // the property quantifies over ALL salt queues that are long enough: mostly unique salts, but
+    // also constant queues and queues drawn from two values (identical disclosures may then arise;
+    // for those queues only count / order / reproducibility are asserted, not the round trip)
+    let queue_kind = match r.below(10) {
+        0 => "constant",
+        1 => "two-valued",
+        _ => "unique",
+    };
+    let pool: Vec<String> = (0..2)
         .map(|_| {
             let mut b = [0u8; 16];
             for x in b.iter_mut() {
@@ -89,6 +97,20 @@ fn one_case(ctx: &Ctx, case: u64, l: &mut Local) {
             b64e(&b)
         })
         .collect();
+    let salts: Vec<String> = (0..n_sd + extra)
+        .map(|_| match queue_kind {
+            "constant" => pool[0].clone(),
+            "two-valued" => r.pick(&pool).clone(),
+            _ => {
+                let mut b = [0u8; 16];
+                for x in b.iter_mut() {
+                    *x = r.below(256) as u8;
+                }
+                b64e(&b)
+            }
+        })
+        .collect();
+    l.count(&format!("queue.{queue_kind}"));
     let input = || json!({"config": cfg.describe(), "claims": s.u, "strategy": s.strat.describe(), "salts": salts.len()});
     l.sample(case, input);
     l.evals += 1;
@@ -102,6 +124,61 @@ fn one_case(ctx: &Ctx, case: u64, l: &mut Local) {
             }
         }
         l.distinct(crate::rng::mix(gen::shape_fingerprint(&s.u) ^ h.rotate_left(17) ^ cfg.bits()));
+    }
+    if queue_kind != "unique" {
+        // identical disclosures (same salt, same name, same value) are possible here, so only the
+        // clauses about the queue itself and reproducibility are asserted, on the raw strings
+        let run_once = |l: &mut Local| -> Option<(crate::model::Parts, usize)> {
+            fill_salts(&salts);
+            let mut issuer = api::new_issuer(cfg.alg, 0, s.explicit_alg);
+            let out = api::issue(&mut issuer, &s.u, &s.strat, cfg.holder, cfg.decoys, cfg.fmt);
+            let left = salts_left();
+            fill_salts(&[]);
+            l.evals += 1;
+            match out {
+                Outcome::Ok(text) => crate::model::Parts::parse(cfg.fmt, &text).ok().map(|p| (p, salts.len() - left)),
+                other => {
+                    l.violate(Violation { subcheck: "issue".into(), class: format!("{queue_kind} salt queue"), observed: other.panic_signature().unwrap_or_else(|| other.describe()), case, detail: json!({"input": input(), "queue": queue_kind}) });
+                    None
+                }
+            }
+        };
+        let a = match run_once(l) {
+            Some(x) => x,
+            None => return,
+        };
+        let (parts, used) = &a;
+        if *used != parts.disclosures.len() || parts.disclosures.len() != n_sd {
+            l.violate(Violation {
+                subcheck: "salt-count".into(),
+                class: format!("{queue_kind} salt queue"),
+                observed: format!("{used} salts consumed, {} disclosures issued, {n_sd} claims designated", parts.disclosures.len()),
+                case,
+                detail: json!({"input": input(), "queue": queue_kind}),
+            });
+            return;
+        }
+        for (i, d) in parts.disclosures.iter().enumerate() {
+            let first = model::b64d(d).ok().and_then(|b| serde_json::from_slice::<Value>(&b).ok()).and_then(|v| v.get(0).cloned());
+            if first != Some(json!(salts[i])) {
+                l.violate(Violation { subcheck: "salt-order".into(), class: format!("{queue_kind} salt queue"), observed: format!("disclosure {i} does not carry queued salt {i}"), case, detail: json!({"input": input()}) });
+                return;
+            }
+        }
+        if !parts.disclosures.is_empty() {
+            l.count("salts.in-order");
+        }
+        if !cfg.decoys {
+            if let Some((p2, _)) = run_once(l) {
+                let seg = |p: &crate::model::Parts| p.jwt.split('.').nth(1).unwrap_or("").to_string();
+                if p2.disclosures == parts.disclosures && seg(&p2) == seg(parts) {
+                    l.count("reissue.byte-identical");
+                } else {
+                    l.violate(Violation { subcheck: "not-reproducible".into(), class: format!("{queue_kind} salt queue"), observed: "same claims/strategy/salts gave different disclosures or payload".into(), case, detail: json!({"input": input()}) });
+                }
+            }
+        }
+        return;
     }
     fill_salts(&salts);
     let issued = match pipeline::issue_scenario(&s) {
